@@ -98,14 +98,19 @@ class PersistentMixin(Module):
         try:
             with open(self.persistentFile, 'r', encoding='utf-8') as f:
                 self.persistentData = json.load(f)
-        except (FileNotFoundError, ValueError):
+        except (OSError, ValueError):
+            # missing, unreadable or corrupt file
             self.persistentData = {}
+        if not isinstance(self.persistentData, dict):
+            self.persistentData = {}  # valid JSON, but not what we have written
         result = {}
         for pname, value in self.persistentData.items():
             try:
                 pobj = self.parameters[pname]
                 if getattr(pobj, 'persistent', False):
-                    result[pname] = self.parameters[pname].datatype.import_value(value)
+                    datatype = self.parameters[pname].datatype
+                    # validate: the stored value may not fit (any more) into the datatype
+                    result[pname] = datatype.validate(datatype.import_value(value))
             except Exception as e:
                 # ignore invalid persistent data (in case parameters have changed)
                 self.log.warning('can not restore %r to %r (%r)', pname, value, e)
